@@ -248,6 +248,8 @@ def check(cx):
     depends(cx, r2, 'C03', ('R3.3', 'R3.6'), 'a registered connection stays marked as such, so its disconnect takes it out of the registry',
             only=r'writes-authenticated|authenticate-reentry')
     depends(cx, r2, 'C06', ('R6.1', 'R6.2'), 'every way a session ends reaches the teardown')
+    # ... and nobody else is: a session that ends removes the user it registered, not one that merely carries the nick it asked for
+    depends(cx, r2, 'C02', ('R2.6',), 'a user is taken out of the registry only by the session that registered it', only=r'unowned-nick-effect')
 
     # ---------------------------------------------------------------- R19.3 ISON / USERHOST
     r3 = cx.rule('R19.3', 'ISON / USERHOST', floor=2, kind='provenance')
